@@ -4,15 +4,15 @@
 #   patch applies at HEAD; demo FAILS with it, PASSES without; build ok; existing suite passes with it.
 set -u
 ID=$1; CMD=$2; shift 2
-WT=/tmp/wt/$ID; SD=/tmp/seed/$ID
+R=${ROUND:-}; WT=/tmp/wt$R/$ID; SD=/tmp/seed$R/$ID
 export GOFLAGS=-mod=mod GOPROXY=off GOSUMDB=off GOTOOLCHAIN=local
 cd $WT || exit 2
 git checkout -q -- . ; git clean -fdq
 git apply $SD/patch.diff || { echo "PATCH DOES NOT APPLY"; exit 1; }
 for pair in "$@"; do src=${pair%%:*}; dst=${pair##*:}; mkdir -p $(dirname $dst); cp $SD/$src $dst; done
-echo "--- demo WITH change (expect FAIL):"; bash -c "$CMD" > /tmp/seed/$ID.with.log 2>&1; W=$?; tail -3 /tmp/seed/$ID.with.log
+echo "--- demo WITH change (expect FAIL):"; bash -c "$CMD" > $SD.with.log 2>&1; W=$?; tail -3 $SD.with.log
 git apply -R $SD/patch.diff
-echo "--- demo WITHOUT change (expect PASS):"; bash -c "$CMD" > /tmp/seed/$ID.without.log 2>&1; WO=$?; tail -2 /tmp/seed/$ID.without.log
+echo "--- demo WITHOUT change (expect PASS):"; bash -c "$CMD" > $SD.without.log 2>&1; WO=$?; tail -2 $SD.without.log
 git apply $SD/patch.diff
 for pair in "$@"; do dst=${pair##*:}; rm -f $dst; done
 git clean -fdq
